@@ -387,7 +387,7 @@ func (d *Doc) CheckContent(cs Case) []Problem {
 	nonEmpty := 0
 	for k, ms := range cs.Models {
 		obs[k].matIdx = -1
-		md := meshMenu[ms.Mesh]
+		md, _ := meshDefOf(ms.Mesh)
 		name := modelName(k)
 		var mine []int
 		for ni, n := range nodes {
